@@ -492,6 +492,21 @@ func build(t reflect.Type, mode popMode, k int, depth int) reflect.Value {
 }
 
 // buildWithPop materialises struct type t with the given per-field counts (children minimal or full by childMode)
+// zeroSamples: a member that is present may well hold the zero of its type - a pointer to 0, to false or to "", a required number
+// that is 0. It is present all the same: what is written depends on presence and on the version, not on the value.
+var zeroSamples bool
+
+func plainKind(t reflect.Type) bool {
+	if hasCustomEncoder(t) || hasCustomEncoder(reflect.PointerTo(t)) {
+		return false
+	}
+	switch t.Kind() {
+	case reflect.Int, reflect.Int8, reflect.Int16, reflect.Int32, reflect.Int64, reflect.Uint32, reflect.Bool, reflect.String:
+		return true
+	}
+	return false
+}
+
 func buildWithPop(sp StructPlan, pop []int, childMode popMode) reflect.Value {
 	v := reflect.New(sp.typ).Elem()
 	for i, f := range sp.Fields {
@@ -499,6 +514,14 @@ func buildWithPop(sp StructPlan, pop []int, childMode popMode) reflect.Value {
 		n := pop[i]
 		if n == 0 {
 			continue
+		}
+		if zeroSamples && !f.SetVer {
+			if ft := fv.Type(); ft.Kind() == reflect.Pointer && plainKind(ft.Elem()) {
+				fv.Set(reflect.New(ft.Elem()))
+				continue
+			} else if f.Kind == "req" && plainKind(ft) && ft.Kind() != reflect.String {
+				continue
+			}
 		}
 		if f.Kind == "rep" {
 			s := reflect.MakeSlice(fv.Type(), 0, n)
@@ -704,7 +727,9 @@ func TestStructCases(t *testing.T) {
 		if (i+int(vh.Seed()))%2 == 0 {
 			childMode = full
 		}
+		zeroSamples = i%3 == 2
 		val := buildWithPop(sp, c.Pop, childMode)
+		zeroSamples = false
 		for _, f := range sp.Fields {
 			if f.SetVer && c.Ver >= 0 { // the structure carries the protocol version itself (message headers)
 				val.Field(f.idx).Set(reflect.ValueOf(ver(c.Ver)))
